@@ -3,13 +3,15 @@
 
    What is proved: schedule independence of the interleaving model
    (Model/Sched.v) for programs that are confined (a goroutine's local actions
-   touch only its own tables / wrappers) and only read the registry.  What is
+   touch only its own tables / wrappers) and only read the registry, and
+   (Model/SchedOwn.v) for confined programs that also REGISTER decorations,
+   each goroutine under names of its own.  What is
    NOT proved, and cannot be in an executable model: that the Go code's actions
    are confined in this sense and free of data races under the Go memory model.
    That part is validated on every run by the race detector under concurrent
    load and by the regenerated shared-state inventory of the source
    (shared_ok; Run/C16Run.v, harness/c16*.go). *)
-From Tab Require Import Model.Sched Proofs.SchedProofs.
+From Tab Require Import Model.Sched Model.SchedOwn Proofs.SchedProofs Proofs.SchedOwnProofs.
 
 (* For every registry implementation, every program vector and EVERY complete
    schedule (arbitrary merge, any length): if every local action is confined to
@@ -98,6 +100,81 @@ Theorem c16_shared_ok_sound : forall fs,
     (mutating k = true -> sy = true \/ (is_guarded_field pkg var path = true /\ locked = true /\ k <> AAddr)).
 Proof. exact shared_ok_sound. Qed.
 Print Assumptions c16_shared_ok_sound.
+
+(* ---- goroutines that register decorations of their own (Model/SchedOwn.v) ----
+
+   "In any formats and decorations" includes the decorations an application
+   registers: the registry is then WRITTEN while the goroutines run, but every
+   name has one owner.  For every registry that obeys the map laws, every
+   assignment of names to owners, every program vector and EVERY complete
+   schedule: if local actions are confined, each goroutine registers only names
+   of its own and looks up only its own names and names nobody registers (and
+   uses a listing only for the names it may look up), then each goroutine ends
+   with the local state and the lookups of its solo run. *)
+Theorem c16_own_decorations_schedule_independent :
+  forall (L R K D : Type) (lookup : R -> K -> D) (names : R -> list K) (write : R -> K -> D -> R),
+    (forall a b : K, {a = b} + {a <> b}) -> reg_laws lookup names write ->
+  forall (owner : K -> option nat) (progs : pvec L K D) (sched : list nat) (G0 : gstate L R K D),
+    confined progs -> own_keys owner progs -> complete sched progs ->
+    forall t,
+      g_loc (run_sched lookup names write sched progs G0) t
+        = g_loc (run_alone lookup names write t (progs t) G0) t /\
+      reads (g_obs (run_sched lookup names write sched progs G0) t)
+        = reads (g_obs (run_alone lookup names write t (progs t) G0) t).
+Proof. exact own_schedule_independent. Qed.
+Print Assumptions c16_own_decorations_schedule_independent.
+
+(* ... and after the join every name holds what its owner's solo run leaves
+   there (no registration is lost, none is overwritten by another goroutine's),
+   names nobody registers hold what they held. *)
+Theorem c16_own_decorations_registry :
+  forall (L R K D : Type) (lookup : R -> K -> D) (names : R -> list K) (write : R -> K -> D -> R),
+    (forall a b : K, {a = b} + {a <> b}) -> reg_laws lookup names write ->
+  forall (owner : K -> option nat) (progs : pvec L K D) (sched : list nat) (G0 : gstate L R K D),
+    own_keys owner progs -> complete sched progs ->
+    (forall t n, owner n = Some t ->
+       lookup (g_reg (run_sched lookup names write sched progs G0)) n
+         = lookup (g_reg (run_alone lookup names write t (progs t) G0)) n) /\
+    (forall n, owner n = None ->
+       lookup (g_reg (run_sched lookup names write sched progs G0)) n = lookup (g_reg G0) n).
+Proof. exact own_registry. Qed.
+Print Assumptions c16_own_decorations_registry.
+
+(* The run-time oracle (Run/C16Run.v: own_ok) compares the answers the
+   implementation gave each goroutine about its own names with own_expected,
+   the goroutine's solo run on an association list.  That is what every
+   interleaving of the logged programs gives on the model. *)
+Theorem c16_own_oracle_any_schedule : forall (opss : list (list c16_op)) sched,
+  (forall t ops, nth_error opss t = Some ops -> Forall (op_wf t) ops) ->
+  complete sched (pvec_of (map (map op_action) opss)) ->
+  forall t ops, nth_error opss t = Some ops ->
+    rev (g_loc (run_sched a_lookup a_names a_write sched (pvec_of (map (map op_action) opss)) a_G0) t)
+      = own_expected t ops.
+Proof. exact own_oracle_any_schedule. Qed.
+Print Assumptions c16_own_oracle_any_schedule.
+
+(* One owner per name is needed: the vector of c16_needs_read_only (goroutine 0
+   looks up the name goroutine 1 registers) satisfies own_keys under no
+   assignment of owners. *)
+Theorem c16_own_keys_excludes_shared_names : forall owner, ~ own_keys owner ex_writer.
+Proof. exact ex_writer_not_own. Qed.
+Print Assumptions c16_own_keys_excludes_shared_names.
+
+(* non-vacuity of the above: two goroutines register a house style each,
+   select it, re-register and select again; a third asks whether a built-in is
+   listed; two merges, same results as alone, registry as the owners left it *)
+Example c16_example_own :
+  confined ex_own /\ own_keys ex_owner ex_own /\
+  complete [0; 1; 0; 1; 2; 0; 1; 0] ex_own /\ complete [1; 1; 0; 2; 0; 0; 0; 1] ex_own /\
+  let G1 := run_sched ex_lookup ex_names ex_write [0; 1; 0; 1; 2; 0; 1; 0] ex_own ex_G0 in
+  let G2 := run_sched ex_lookup ex_names ex_write [1; 1; 0; 2; 0; 0; 0; 1] ex_own ex_G0 in
+  map (g_loc G1) [0; 1; 2] = [53; 16; 1] /\ map (g_loc G2) [0; 1; 2] = [53; 16; 1] /\
+  g_loc (run_alone ex_lookup ex_names ex_write 0 (ex_own 0) ex_G0) 0 = 53 /\
+  ex_lookup (g_reg G1) 10 = 3 /\ ex_lookup (g_reg G2) 11 = 6.
+Proof.
+  split; [exact ex_own_confined|]. split; [exact ex_own_keys|].
+  destruct ex_own_runs as [A [B C]]. split; [exact A|]. split; [exact B|]. exact C.
+Qed.
 
 (* non-vacuity: a confined three-goroutine vector (build; look a decoration up
    and render with it; list the names), two different merges, same results as
